@@ -17,6 +17,9 @@ for sid in sorted(os.listdir(os.path.join(HERE, "seeded"))):
     if len(sys.argv) > 1 and sys.argv[1] not in sid:
         continue
     caught = {}
+    if meta.get("neutralised_by"):
+        rows.append((sid, prop, {k: dict(v, exit=str(v["exit"]) + " (before fix " + meta["neutralised_by"]["fix"] + "; neutralised by it)") for k, v in meta["caught_by"].items()}))
+        continue
     for chk in [prop] + EXTRA.get(sid, []):
         p = subprocess.run([os.path.join(HERE, "tools", "try_seed_wt.sh"), sid, chk], stdout=subprocess.PIPE, stderr=subprocess.STDOUT, env=dict(os.environ, LINES_SHOWN="40"))
         out = p.stdout.decode()
